@@ -8,6 +8,8 @@ pub mod c06;
 pub mod c08;
 pub mod c10;
 pub mod c11;
+pub mod c12;
+pub mod c13;
 pub mod c14;
 pub mod c15;
 pub mod c17;
@@ -27,6 +29,8 @@ pub fn run(id: &str, ctx: &Ctx) -> Option<CheckOutput> {
         "C08" => c08::run(ctx),
         "C10" => c10::run(ctx),
         "C11" => c11::run(ctx),
+        "C12" => c12::run(ctx),
+        "C13" => c13::run(ctx),
         "C14" => c14::run(ctx),
         "C15" => c15::run(ctx),
         "C17" => c17::run(ctx),
